@@ -43,6 +43,10 @@ func (h *EthHeader) Hash() (hash common.Hash) {
 }
 
 func (h Header) ValidateBasic() error {
+	// ToEthHeader (and with it Hash) panics on a bloom longer than the fixed size
+	if len(h.Bloom) > types.BloomByteLength {
+		return fmt.Errorf("invalid bloom: have %d bytes, max %d", len(h.Bloom), types.BloomByteLength)
+	}
 	// Verify that the gas limit is <= 2^63-1
 	cap := uint64(0x7fffffffffffffff)
 	if h.GasLimit > cap {
